@@ -231,6 +231,8 @@ def _plan(c):
     if c["op"] == "c13.decide":
         plan.append("decide")
     plan.append("check")
+    plan.append("algo")
+    plan.append("algo2")
     if c["tags"].get("planted_tree"):
         plan.append("planted")
     if len(c["payload"][0]) <= 4:
@@ -258,6 +260,10 @@ def oracle_requests(c, r):
             reqs.append(("c13.check_slow", [alts, orders, edges]))
         elif lb == "planted":
             reqs.append(("c13.check", [alts, orders, c["tags"]["planted_tree"]]))
+        elif lb == "algo":
+            reqs.append(("c13.algo", [alts, orders]))
+        elif lb == "algo2":
+            reqs.append(("c13.algo2", [alts, orders]))
     return reqs
 
 
@@ -276,6 +282,21 @@ def judge(c, r, mres):
         return {"kind": "broken-correspondence", "reason": "spt_checkf and spt_check disagree"}
     if "decide_slow" in m and m["decide_slow"] != m["decide"]:
         return {"kind": "broken-correspondence", "reason": "spt_decide and spt_decide_slow disagree"}
+    # the mirror of the algorithm (Model/TreeAlgo.v), two instantiations of the unspecified set orders
+    for lb in ("algo", "algo2"):
+        a = m[lb]
+        if a[0] != 0:
+            return {"kind": "broken-correspondence", "reason": "mirror %s ran out of fuel (trick_terminates)" % lb}
+        av, aedges, achk = a[1]
+        if av == 1 and achk != 1:
+            return {"kind": "broken-correspondence",
+                    "reason": "mirror %s answers True with an edge list rejected by spt_check (trick_sound)" % lb}
+        if "decide" in m and av != m["decide"]:
+            return {"kind": "broken-correspondence",
+                    "reason": "mirror %s verdict %s, reference %s (trick_sound / trick_complete)" % (lb, av, m["decide"])}
+        if av != verdict:
+            return {"kind": "mismatch", "theorem": "trick_sound, trick_complete",
+                    "reason": "verdict %s, mirror of the algorithm (%s) says %s" % (bool(verdict), lb, bool(av))}
     if "decide" in m:
         if m.get("planted") == 1 and m["decide"] != 1:
             return {"kind": "broken-correspondence", "reason": "spt_decide rejects a profile with a checked witness"}
@@ -302,13 +323,21 @@ def stats(c, r, m):
     v = "?"
     if isinstance(r, list) and r and r[0] == 0:
         v = "T" if r[1][0] == 1 else "F"
+    mirror = []
+    try:
+        a1, a2 = d["algo"][1], d["algo2"][1]
+        mirror.append("mirror verdicts (first/last, fwd/bwd) %s" % ("agree" if a1[0] == a2[0] else "DIFFER"))
+        if a1[0] == 1:
+            mirror.append("mirror edge lists %s" % ("equal" if a1[1] == a2[1] else "differ (both valid)"))
+    except Exception:
+        mirror.append("mirror error")
     if c["op"] == "c13.decide":
         ref = "T" if d["decide"] == 1 else "F"
-        return ["decide m=%d ref=%s" % (mm, ref), "decide n=%s ref=%s" % (n if n <= 4 else ">4", ref)]
+        return ["decide m=%d ref=%s" % (mm, ref), "decide n=%s ref=%s" % (n if n <= 4 else ">4", ref)] + mirror
     size = "7-15" if mm <= 15 else "16-30"
     if c["op"] == "c13.check":
-        return ["planted m=%s verdict=%s witness=%s" % (size, v, "ok" if d["check"] == 1 else "bad")]
-    return ["noisy-large m=%s verdict=%s%s" % (size, v, " witness=ok" if (v == "T" and d["check"] == 1) else "")]
+        return ["planted m=%s verdict=%s witness=%s" % (size, v, "ok" if d["check"] == 1 else "bad")] + mirror
+    return ["noisy-large m=%s verdict=%s%s" % (size, v, " witness=ok" if (v == "T" and d["check"] == 1) else "")] + mirror
 
 
 def describe(c):
